@@ -30,7 +30,6 @@ THEOREMS = [
     "Cog.Det.N_keyed_write_collision", "Cog.Det.N_ordered_side_effect", "Cog.Det.N_nested_replace",
     "Cog.Det.N_error_value", "Cog.Det.N_ordered_insert",
 ]
-MY_LEAN = ("lean/Cog/Det/", "lean/Cog/Props/C03.lean", "lean/Cog/Gen/MapRangeSites.lean")
 PIPES = os.path.join(WORK, "c03", "pipes")
 
 
@@ -58,24 +57,6 @@ def offending_sites():
     if rc != 0:
         return None, text[-2500:]
     return [l for l in text.split("\n") if l.startswith(("SITE ", "IMPURE ", "KNOWN-PRESENT ", "KNOWN-SITE "))], ""
-
-
-def my_lean_obligations(c):
-    """as Check.lean_obligations, restricted to this property's modules (the library is shared
-    with checks under construction)"""
-    ok, out = lake_build(("Cog.Props.C03",))
-    c.oblige("lake build Cog.Props.C03", ok, out[-3000:] if not ok else "")
-    hits = [h for h in forbidden_scan() if h.startswith(MY_LEAN)]
-    c.oblige("no sorry/admit/axiom/native_decide/bv_decide/implemented_by/unsafe in C03 lean sources", not hits, hits[:10])
-    if not ok:
-        for t in THEOREMS:
-            c.oblige("theorem " + t, False, "build failed")
-        return False
-    res, text = audit(THEOREMS, ("Cog.Props.C03",))
-    for t in THEOREMS:
-        o, ax = res[t]
-        c.oblige("theorem %s (axioms: %s)" % (t, ",".join(ax) or "none"), o, text[-1500:] if not o else "")
-    return all(res[t][0] for t in THEOREMS)
 
 
 def parse_reply(reply):
@@ -181,7 +162,7 @@ def main():
         "the observable excludes the text of error messages and progress output (N_error_value shows why)",
         "dynamic recipes sample iteration orders (Go randomises per range); a site whose map never holds two entries in any recipe is validated by the proof only",
     ]
-    hb, err = gen_c03.build_harness()
+    hb, err = build_go("verifharness", "harness", files=["main.go", "prng.go", "util.go", "c03_*.go"], tag="c03")
     c.oblige("harness builds against /repo working tree", hb is not None, err)
     if c.replay:
         if hb is None:
@@ -227,7 +208,7 @@ def main():
     bad_sites = [l for l in off if l.startswith(("SITE ", "IMPURE "))]
     c.cov["known_sites_present"] = next((l for l in off if l.startswith("KNOWN-PRESENT")), "")
     c.oblige("every map-range site is outside a run, proved admissible, reviewed, or a listed known site", not bad_sites, bad_sites)
-    my_lean_obligations(c)
+    c.lean_obligations(THEOREMS, targets=("Cog.Props.C03",))
 
     if hb is None:
         c.finish("lake build Cog.Props.C03 && #print axioms", "n/a")
